@@ -333,8 +333,12 @@ def rts_cosH0 (lat d2 h0 : Num) : PyRes Num :=
 /-- elevation of `equatorial2horizontal(ha, dec, lat)` (the azimuth is computed and dropped; it
     cannot raise): `ele = Angle(asin(sin(lat)*sin(dec) + cos(lat)*cos(dec)*cos(h)), radians=True)`. -/
 def rts_elevation (ha dec lat : Num) : PyRes Num :=
-  let x := psin (pradians lat) * psin (pradians dec) + pcos (pradians lat) * pcos (pradians dec) * pcos (pradians ha)
-  if plt 1.0 (pabs x) then .error .valueError else .ok (aOfRadians (pasin x))
+  -- x = cos(dec) * cos(h) * sin(lat) - sin(dec) * cos(lat); y = cos(dec) * sin(h)
+  let x := pcos (pradians dec) * pcos (pradians ha) * psin (pradians lat) - psin (pradians dec) * pcos (pradians lat)
+  let y := pcos (pradians dec) * psin (pradians ha)
+  -- z = sin(lat) * sin(dec) + cos(lat) * cos(dec) * cos(h); ele = atan2(z, sqrt(x * x + y * y))     (cannot raise)
+  let z := psin (pradians lat) * psin (pradians dec) + pcos (pradians lat) * pcos (pradians dec) * pcos (pradians ha)
+  .ok (aOfRadians (patan2 z (psqrt (x * x + y * y))))
 
 /-- One pass of `for _ in range(2):` on `(m0, m1, m2)`. -/
 def rts_iter (lon lat a1 d1 a2 d2 a3 d3 h0 delta_t theta0 : Num) (s : Num × Num × Num) :
